@@ -43,12 +43,14 @@ static void witness(const unsigned char *str, int n, int do_end);
 /* ---- exhaustive chunk-schedule exploration inside C ---- */
 static long NFEED, NSCHED, NSTR, NDIFF, NINV, NLIVE; static unsigned GMASK;
 static int ptrs_null(void);
+static int CUTPOS = -1, CUTALL = 0;     /* long inputs: one cut after byte CUTPOS / a cut after every byte (positions beyond the 31 bits of a mask) */
+static int iscut(unsigned mask, int k){ if (CUTALL) return 1; if (CUTPOS >= 0) return k == CUTPOS; return k < 31 && (mask & (1u << k)); }
 static void run_one(const unsigned char *s, int n, unsigned mask, int do_end){
   shim_release(); memset(ST, 0, sizeof(PSTATE_T)); install_hooks();
   CUR_PP = NULL; int r = PSTART(ST); install_hooks(); out8('S'); out8(r);
   int a = 0, term = (r != 0);
   while (!term && a < n){
-    int b = a + 1; while (b < n && !(mask & (1u << (b - 1)))) b++;
+    int b = a + 1; while (b < n && !iscut(mask, b - 1)) b++;
     unsigned char *buf = malloc(b - a); memcpy(buf, s + a, b - a);
     const uint8_t *p = buf; int guard = 0;
     for (;;){
@@ -164,9 +166,11 @@ static void witness(const unsigned char *str, int n, int do_end){
   NORM = 1; long nd = 0, ns = 0; unsigned badmask = 0;
   OUTB = NULL; OUTN = 0; OUTCAP = 0; run_one(str, n, 0, do_end); unsigned char *refb = OUTB; size_t refn = OUTN; ns++;
   for (int k = 0; k <= n - 1 && n > 1; k++){
-    unsigned mask = (k == n - 1) ? ((n - 1 >= 31) ? 0x7fffffffu : ((1u << (n - 1)) - 1)) : (1u << k);
+    unsigned mask = (k < 31) ? (1u << k) : 0x80000000u;
+    if (k == n - 1){ CUTALL = 1; mask = 0x7fffffffu; } else CUTPOS = k;
     OUTB = NULL; OUTN = 0; OUTCAP = 0; run_one(str, n, mask, do_end); ns++;
-    if (OUTN != refn || memcmp(OUTB, refb, refn)){ if (!nd) badmask = mask; nd++; }
+    CUTALL = 0; CUTPOS = -1;
+    if (OUTN != refn || memcmp(OUTB, refb, refn)){ if (!nd) badmask = (k == n - 1) ? 0x7fffffffu : (unsigned)k; nd++; }
     free(OUTB);
   }
   NORM = 0; free(refb);
@@ -451,7 +455,7 @@ class CProg:
         return b"R"
 
     def op_witness(self, data, do_end=False):
-        data = bytes(data)[:30]
+        data = bytes(data)[:250]
         return b"W" + bytes([len(data), 1 if do_end else 0]) + data
 
     def op_exhaust(self, L, reps, do_end=False, digest=False, bytewise=False, no_offsets=False):
